@@ -197,7 +197,14 @@ fn gen_workload(seed: u64, idx: u64) -> Workload {
     if configs.iter().any(|c| c[0].patterns.len() > 32) {
         inputs.push(format!("kb1 {}b kn39 {}b kz25", "a".repeat(40), "a".repeat(69)));
     }
-    let shared_cfg = rng.below(configs.len());
+    let mut shared_cfg = rng.below(configs.len());
+    // a big configuration, if there is one, is the shared scanner half of the time (concurrent scans
+    // of one big compilation)
+    if let Some(bi) = configs.iter().position(|c| c[0].patterns.len() > 32) {
+        if rng.chance(1, 2) {
+            shared_cfg = bi;
+        }
+    }
     // workload flavours: ordinary / failing storm (many concurrent failing builds of multi-mode
     // configurations) / miss storm under cache pressure
     let flavour = rng.weighted(&[6, 1, 1]);
